@@ -171,21 +171,26 @@ class MemoryPoolList {
   }
 
   Pool* addPool(Allocator* allocator) {
+    if (count_ >= maxPools)  // all slot ids are in use
+      return nullptr;
     if (count_ == capacity_ && !increaseCapacity(allocator))
       return nullptr;
     auto pool = &pools_[count_++];
     SlotCount poolCapacity = ARDUINOJSON_POOL_CAPACITY;
     if (count_ == maxPools)  // last pool is smaller because of NULL_SLOT
-      poolCapacity--;
+      poolCapacity = lastPoolCapacity;
     pool->create(poolCapacity, allocator);
     return pool;
   }
 
   bool increaseCapacity(Allocator* allocator) {
-    if (capacity_ == maxPools)
+    if (capacity_ >= maxPools)
       return false;
     void* newPools;
-    auto newCapacity = PoolCount(capacity_ * 2);
+    // don't exceed maxPools, even if it's not a power-of-two multiple of the
+    // initial capacity
+    PoolCount newCapacity =
+        capacity_ <= maxPools / 2 ? PoolCount(capacity_ * 2) : maxPools;
 
     if (pools_ == preallocatedPools_) {
       newPools = allocator->allocate(newCapacity * sizeof(Pool));
@@ -210,8 +215,14 @@ class MemoryPoolList {
   SlotId freeList_ = NULL_SLOT;
 
  public:
+  // The pools must provide NULL_SLOT slots at most (ids 0 to NULL_SLOT-1), so
+  // the last pool is smaller when ARDUINOJSON_POOL_CAPACITY doesn't divide
+  // NULL_SLOT.
   static const PoolCount maxPools =
-      PoolCount(NULL_SLOT / ARDUINOJSON_POOL_CAPACITY + 1);
+      PoolCount(NULL_SLOT / ARDUINOJSON_POOL_CAPACITY +
+                (NULL_SLOT % ARDUINOJSON_POOL_CAPACITY ? 1 : 0));
+  static const SlotCount lastPoolCapacity =
+      SlotCount(NULL_SLOT - (maxPools - 1) * ARDUINOJSON_POOL_CAPACITY);
 };
 
 ARDUINOJSON_END_PRIVATE_NAMESPACE
